@@ -6,15 +6,15 @@
 //!   fas eorder=<edge ids in edge_references order>            => <edge ids returned, iteration order>
 //!   dsatur                                                    => colors=<a:c,..> k=<k>
 //!   tred topo=<nodes in the toposort handed in>               => revmap=<a:r,..> res=<r:s,s;..> red=<..> clo=<..>
-//!   cliques                                                   => <c1;c2;..>   (each sorted, list sorted)
+//!   cliques                                                   => <c1;c2;..>   (each sorted; in the order of the returned Vec)
 //!   paths <a> <b> <min> <max|none>                            => <p1;p2;..>   (iterator order)
 //!   steiner terms=<..>                                        => nodes=<..> edges=<edge ids>
 //!   pagerank d=<num>/<den> it=<k> perm=<p>                    => <ranks*1e12>|<ranks*1e12 of the relabelled copy>
 //!
-//! Domain notes: `all_simple_paths` is exercised with from != to only (for from == to the crate yields
-//! closed cycles and, with max = None, misses the Hamiltonian one; the property's notion of a simple
-//! path does not cover that case); `steiner_tree` gets >= 2 distinct terminals of one component, plus
-//! 3 % single-terminal cases (finding NEW-steiner-single-terminal: the result is the empty graph);
+//! Domain notes: `all_simple_paths` is exercised with from != to (85 %) and from == to (15 %: the crate
+//! then yields the simple cycles through `from` and, with max = None, misses the Hamiltonian one —
+//! judged by the statement of `C20_paths_from_eq_to`); `steiner_tree` gets >= 2 distinct terminals of
+//! one component, plus 3 % single-terminal cases (the tree is that node alone; D29 is fixed);
 //! `page_rank` runs on compact encodings only (StableGraph with vacancies is finding D12 of C07).
 use crate::common::*;
 use crate::graphs::*;
@@ -325,7 +325,10 @@ where
 {
     let r = catch(|| {
         let cs = maximal_cliques(g);
-        let mut v: Vec<Vec<usize>> = cs
+        // the cliques in the order of the returned `Vec` (it reflects the exploration order of
+        // `bron_kerbosch_pivot`; the driver looks for a run of the mirror model with the code's pivot
+        // rule that reports them in this order); every clique (a `HashSet`) sorted
+        let v: Vec<Vec<usize>> = cs
             .into_iter()
             .map(|c| {
                 let mut c: Vec<usize> = c.into_iter().map(|n| abs(n)).collect();
@@ -333,7 +336,6 @@ where
                 c
             })
             .collect();
-        v.sort();
         // the empty clique (empty graph) is printed as `e`
         if v.is_empty() { "-".to_string() } else { v.into_iter().map(|c| if c.is_empty() { "e".to_string() } else { list(c) }).collect::<Vec<_>>().join(";") }
     });
@@ -360,21 +362,48 @@ fn case_cliques(ctx: &mut Ctx, rng: &mut Rng) {
 }
 
 // ------------------------------------------------------------------------------------------------
-// (5) all_simple_paths — directed graphs, a != b, all bounds
+// (5) all_simple_paths — directed graphs, a != b and a == b, all bounds
 
 fn paths_on<G>(ctx: &mut Ctx, rng: &mut Rng, g: G, n: usize, abs: &dyn Fn(G::NodeId) -> usize, conc: &dyn Fn(usize) -> G::NodeId)
 where
     G: IntoNeighborsDirected + NodeCount + Copy,
     G::NodeId: Eq + Hash,
 {
-    if n < 2 {
+    if n == 0 {
         return;
     }
     for _ in 0..4 {
-        let a = rng.below(n);
+        let mut a = rng.below(n);
         let mut b = rng.below(n);
+        // 15 % (always on a one-node graph): from == to — the iterator then yields the simple cycles
+        // through `a` (judged by the statement of `C20_paths_from_eq_to`)
+        let cyc = n == 1 || rng.chance(15);
+        if cyc && rng.chance(75) {
+            // mostly a node that lies on a cycle, if there is one
+            let order = random_perm(rng, n);
+            for &c in &order {
+                let mut seen = vec![false; n];
+                let mut st = vec![conc(c)];
+                let mut back = false;
+                while let Some(x) = st.pop() {
+                    for y in g.neighbors_directed(x, petgraph::Direction::Outgoing) {
+                        if abs(y) == c {
+                            back = true;
+                        }
+                        if !seen[abs(y)] {
+                            seen[abs(y)] = true;
+                            st.push(y);
+                        }
+                    }
+                }
+                if back {
+                    a = c;
+                    break;
+                }
+            }
+        }
         // mostly a target that is reachable from `a`
-        if rng.chance(70) {
+        if !cyc && rng.chance(70) {
             let mut seen = vec![false; n];
             let mut st = vec![conc(a)];
             seen[a] = true;
@@ -392,11 +421,18 @@ where
                 b = *rng.pick(&reach);
             }
         }
-        if b == a {
+        if cyc {
+            b = a;
+        } else if b == a {
             b = (a + 1) % n;
         }
         let min = if rng.chance(55) { 0 } else { rng.below(n) };
-        let max: Option<usize> = if rng.chance(40) { None } else { Some(rng.below(n + 1)) };
+        let mut max: Option<usize> = if rng.chance(40) { None } else { Some(rng.below(n + 1)) };
+        // from == to on 8 nodes: a dense graph has > 10^4 simple cycles through one node; keep the answer
+        // (and the judge's enumeration) small by bounding the number of intermediate nodes
+        if cyc && n >= 8 && max.map_or(true, |m| m > 4) {
+            max = Some(rng.below(5));
+        }
         let r = catch(|| {
             let ps: Vec<Vec<usize>> = all_simple_paths::<Vec<_>, _, RandomState>(g, conc(a), conc(b), min, max)
                 .take(5000)
@@ -406,6 +442,9 @@ where
         });
         let ms = match max { Some(m) => m.to_string(), None => "none".into() };
         ctx.line(&format!("paths {} {} {} {}", a, b, min, ms), &r.unwrap_or("panic".into()));
+        if n == 1 {
+            break; // a one-node graph has one interesting query
+        }
     }
 }
 
